@@ -21,6 +21,8 @@ PRED = {
     'odd': lambda part: part._vseq % 2 == 1,
     'q1': lambda part: part.quality == 1,
     'q2': lambda part: part.quality != 1,
+    'qeq2': lambda part: part.quality == 2,
+    'qge3': lambda part: part.quality >= 3,
 }
 
 
@@ -68,9 +70,11 @@ class Model:
                 ps = [Part('%s_%d' % (part_name, i), value=self.value, quality=self.quality) for i in range(self.bsrc)]
                 return Batch(part_name, ps)
 
+        PartFlowController = __import__('simprocesd.model.factory_floor', fromlist=['PartFlowController']).PartFlowController
         for d in cfg['devs']:
             k = d['kind']
-            ups = [self.dev[u] for u in d.get('ups', [])]
+            # a device with an upstream that does not exist yet is wired after all devices were created
+            ups = [] if d.get('late') else [self.dev[u] for u in d.get('ups', [])]
             name = 'd%d' % d['id']
             if k == 'source':
                 budget = float('inf') if d.get('budget', INF) == INF else d['budget']
@@ -89,6 +93,8 @@ class Model:
             elif k == 'gate':
                 pred = PRED[d.get('pred', 'all')]
                 o = DecisionGate(name, ups, decider_override=lambda g, p, pred=pred: pred(p))
+            elif k == 'junction':
+                o = PartFlowController(name, ups)
             elif k == 'batcher':
                 o = PartBatcher(name, ups, output_batch_size=(d['bsize'] if d.get('bsize', 0) > 0 else None))
             elif k == 'group':
@@ -106,6 +112,9 @@ class Model:
                 o._vid = d['id']
                 o._vkind = k
                 self._callbacks(o, d)
+        for d in cfg['devs']:
+            if d.get('late'):
+                self.dev[d['id']].set_upstream([self.dev[u] for u in d['ups']])
         # group input / output pseudo devices are pass-through: the tracer maps them to their group
         for gid, g in self.groups.items():
             self.by_asset[g._input_device.id] = -gid * 2
@@ -139,6 +148,9 @@ class Model:
                 if d.get('qset'):
                     for lf in leaves(part):
                         lf.quality = 1 + (lf._vseq % d['qset'])
+                elif d.get('qinc'):
+                    for lf in leaves(part):
+                        lf.quality += 1
                 if d.get('foff'):
                     m.offset_next_cycle_time(d['foff'] * TICK)
                 tr.occ('prod', d['id'], part, m)
